@@ -16,24 +16,41 @@ CLAIM = {
              "account-type sign, conversion block, charge, note, balance, row order) is modelled in Lean on top of the "
              "Txn/to_double_entry model. Theorems: C16_sign (credit positive, debit negative, amount column negated for a "
              "liability account), C16_counter (counter-posting = -amount, or the secondary amount with the opposite sign, "
-             "rate attached to the commodity it prices), C16_order (oldest first under either row_order), and "
-             "C16_accepts_partial: for rows without charge and without conversion whose running balance is consistent, "
-             "the model's book-keeping accepts fund :: import and the account ends at the last balance (induction over "
-             "the rows through process/add_transaction). The full statement C16_accepts_full is kept as a Prop and refuted "
-             "by a concrete witness (F19: a non-zero charge yields an unbalanced transaction). The model is tied to "
+             "rate attached to the commodity it prices), C16_order (oldest first under either row_order), and acceptance "
+             "by the model's book-keeping of fund :: import with the account ending at the last balance (induction over "
+             "the rows through process/add_transaction): C16_accepts_partial (rows without charge and without conversion), "
+             "C16_accepts_zero_charge (charges that are all zero; the CSV importer drops zero/empty charge cells, "
+             "C16_zero_charge_dropped), C16_accepts_conversion (rows may carry a currency conversion that is consistent "
+             "with its rate: |secondary| = rate x |amount| when the rate prices the primary commodity, |amount| = rate x "
+             "|secondary| when it prices the secondary, rate non-zero, exact equality since the printed ledger declares no "
+             "precision) and C16_accepts_conversion_rows (the same stated on the decoded CSV rows: extract mode needs the "
+             "statement's figures to agree with the rate, compute mode needs a positive rate and, for price_of_secondary, "
+             "an exact quotient). The condition is exact: C16_conversion_iff (a converted row is accepted iff it is "
+             "consistent) and C16_conversion_necessary (an inconsistent converted row makes process fail as unbalanced at "
+             "that entry, whatever follows); concrete witnesses C16_inconsistent_conversion_rejected (secondary amount one "
+             "cent off) and C16_inexact_conversion_rejected (compute / price_of_secondary with an inexact division). "
+             "Not proved: acceptance of rows that carry both a conversion and a non-zero charge, and rows with a non-zero "
+             "charge at all - the full statement C16_accepts_full is kept as a Prop and refuted by a concrete witness "
+             "(F19: a non-zero charge yields an unbalanced transaction); necessity of 'positive rate / exact quotient' "
+             "for compute mode is shown by witness only. The model is tied to "
              "cli/src/import/csv.rs by running generated CSV x configuration cases through the real importer and diffing "
              "the transaction trees, and the property's statement (sign, counter-posting, rate placement, order, acceptance "
              "by the real report::process and final balance) is evaluated on the real output by a Python oracle that does "
              "not use the model."),
     "note": "CSV/YAML decoding, chrono date parsing, the number parser and the regex engine are parameters of the model "
             "(decoded by the real libraries in the harness); rust_decimal is modelled exactly inside 96 bits / 28 places; "
-            "acceptance with currency conversions is checked on the real code only (not part of the Lean theorem).",
+            "the acceptance theorems are about the printed ledger alone (no commodity directive, hence no rounding in "
+            "check_balance); with a declared precision okane also accepts conversions that agree after rounding.",
     "design_ref": "DESIGN.md section 6, C16; section 7, F19",
 }
 
 THEOREMS = ["Okane.Import.C16_sign_credit_debit", "Okane.Import.C16_sign_amount", "Okane.Import.C16_counter_plain",
             "Okane.Import.C16_counter_conversion", "Okane.Import.C16_order", "Okane.Import.C16_accepts_partial",
-            "Okane.Import.C16_accepts_full_false"]
+            "Okane.Import.C16_accepts_full_false", "Okane.Import.C16_accepts_conversion",
+            "Okane.Import.C16_accepts_zero_charge", "Okane.Import.C16_zero_charge_dropped", "Okane.Import.C16_row_ok",
+            "Okane.Import.C16_accepts_conversion_rows", "Okane.Import.C16_conversion_iff",
+            "Okane.Import.C16_conversion_necessary", "Okane.Import.C16_inconsistent_conversion_rejected",
+            "Okane.Import.C16_inexact_conversion_rejected"]
 
 ACCOUNT_ASSET = "Assets:Bank"
 ACCOUNT_LIAB = "Liabilities:Card"
